@@ -259,7 +259,10 @@ func (r *rng) size() (int, int) {
 	case 2:
 		return 10 + r.n(30), 1 + r.n(3) // wide and short
 	case 3:
-		return 1, 1
+		if r.chance(1, 4) {
+			return 1, 1
+		}
+		return 2 + r.n(3), 1 + r.n(2)
 	default:
 		return 1 + r.n(9), 1 + r.n(7)
 	}
@@ -325,18 +328,18 @@ func writeCase(w *bufio.Writer, c genCase) {
 	// width table for every multi-byte rune of the input
 	seen := map[rune]bool{}
 	fmt.Fprint(w, "101")
+	var all []byte
 	for _, op := range c.ops {
-		if op.kind != 110 {
-			continue
+		if op.kind == 110 {
+			all = append(all, op.data...)
 		}
-		b := op.data
-		for len(b) > 0 {
-			ru, n := utf8.DecodeRune(b)
-			b = b[n:]
-			if ru >= 128 && !seen[ru] {
-				seen[ru] = true
-				fmt.Fprintf(w, " %d %d", ru, termemu.VerifRuneWidth(ru))
-			}
+	}
+	for b := all; len(b) > 0; {
+		ru, n := utf8.DecodeRune(b)
+		b = b[n:]
+		if ru >= 128 && !seen[ru] {
+			seen[ru] = true
+			fmt.Fprintf(w, " %d %d", ru, termemu.VerifRuneWidth(ru))
 		}
 	}
 	fmt.Fprintln(w)
